@@ -52,6 +52,10 @@ pub struct Flags {
     /// the input text ends without a final newline
     #[serde(default)]
     pub no_final_newline: bool,
+    /// bedGraph values are written as long decimals lying just beyond the midpoint between the
+    /// neighbouring float and the intended one (the nearest float is still the intended one)
+    #[serde(default)]
+    pub long_decimals: bool,
 }
 
 #[derive(Serialize, Deserialize, Clone, Debug)]
@@ -104,6 +108,31 @@ fn run(prog: &str, args: &[String], delay: Option<(u32, u8)>) -> Result<(i32, St
     }
     let o = c.output().map_err(|e| format!("cannot run {}: {}", prog, e))?;
     Ok((o.status.code().unwrap_or(-1), String::from_utf8_lossy(&o.stderr).to_string()))
+}
+
+/// A decimal text whose nearest f32 is `x`, chosen to sit a hair beyond the midpoint between `x` and its
+/// neighbour on the side where a tie would round AWAY from `x` (only for odd mantissas and moderate
+/// exponents; everything else is printed the ordinary way). Parsing it through f64 first rounds twice.
+pub fn long_decimal(x: f32) -> String {
+    let a = x.abs();
+    if !(a >= 1e-3 && a < 1e9) || x.to_bits() & 1 == 0 {
+        return format!("{}", x);
+    }
+    // neighbour towards zero; mid is exactly representable in f64
+    let lo = f32::from_bits(a.to_bits() - 1);
+    let mid = (lo as f64 + a as f64) / 2.0;
+    // exact decimal expansion of mid (a dyadic rational with < 60 fractional digits here), then one more digit
+    let mut t = format!("{:.60}", mid);
+    t.push('1');
+    let back: f32 = t.parse().unwrap_or(f32::NAN);
+    if back.to_bits() != a.to_bits() {
+        return format!("{}", x);
+    }
+    if x < 0.0 {
+        format!("-{}", t)
+    } else {
+        t
+    }
 }
 
 fn name_strategy() -> BoxedStrategy<String> {
@@ -180,9 +209,9 @@ fn flags() -> BoxedStrategy<Flags> {
             any::<bool>(),
         ),
         (1u8..=16, any::<bool>(), style()),
-        (proptest::option::of((any::<u16>(), any::<u16>(), any::<u16>())), prop::bool::weighted(0.3), proptest::option::of((any::<u32>(), 30u8..=100)), 0u8..3, prop::bool::weighted(0.3)),
+        (proptest::option::of((any::<u16>(), any::<u16>(), any::<u16>())), prop::bool::weighted(0.3), proptest::option::of((any::<u32>(), 30u8..=100)), 0u8..3, prop::bool::weighted(0.3), prop::bool::weighted(0.25)),
     )
-        .prop_map(|((threads, parallel, single_pass, inmemory, uncompressed), (block_size, zooms, style, ucsc), (back_threads, back_inmemory, back_style), (restrict, restrict_chrom_only, delay, restrict_which, no_final_newline))| Flags {
+        .prop_map(|((threads, parallel, single_pass, inmemory, uncompressed), (block_size, zooms, style, ucsc), (back_threads, back_inmemory, back_style), (restrict, restrict_chrom_only, delay, restrict_which, no_final_newline, long_decimals))| Flags {
             threads,
             parallel,
             single_pass,
@@ -200,6 +229,7 @@ fn flags() -> BoxedStrategy<Flags> {
             restrict_which,
             delay,
             no_final_newline,
+            long_decimals,
         })
         .boxed()
 }
@@ -248,7 +278,16 @@ impl Prop for C16 {
         // inputs
         let (text, sizes, nchroms): (String, String, usize) = match &case.base {
             Base::Bw(i) => {
-                let (t, _) = crate::drive::bw_text(&crate::drive::bw_items(i));
+                let (t, _) = if f.long_decimals {
+                    obs.label("values-as-long-decimals");
+                    let mut t = String::new();
+                    for (c, v) in crate::drive::bw_items(i) {
+                        t.push_str(&format!("{}\t{}\t{}\t{}\n", c, v.start, v.end, long_decimal(v.value)));
+                    }
+                    (t, vec![])
+                } else {
+                    crate::drive::bw_text(&crate::drive::bw_items(i))
+                };
                 let mut s = String::new();
                 for c in &i.chroms {
                     s.push_str(&format!("{}\t{}\n", c.name, c.size));
